@@ -32,9 +32,9 @@ NOTES = {
  "C16": "trusted: Coq kernel + vm_compute; Threads.v (atomic Python-level actions, GIL); harness turn-taking barriers; setup nodes run before sharing a DAG between threads.",
  "C17": "trusted: as C01; asyncio event loop semantics not modelled (liveness monitored on real loops).",
  "C19": "trusted: as C20; alias resolution (unique alias, Ellipsis) exercised through node ids only in the generated cases.",
- "C20": "trusted: as C01 plus Iso.v / IsoCheck.v (that the executable embed_check implies the Prop embeds is not proved: the checker is part of the harness side of the trusted base); prefix renaming supplied by the harness from the ids tawazi produced.",
+ "C20": "trusted: as C01 plus Iso.v / IsoCheck.v (the executable embed_check is proved sound for the Prop embeds: IsoCheckFacts.embed_check_sound) and Args.v; prefix renaming supplied by the harness from the ids tawazi produced.",
  "C11": "trusted: Coq kernel + vm_compute; History.v / Select.v models; harness; setup node functions pure. Axioms: none.",
- "C15": "trusted: as C01 plus History.v; mutation of shared constants by impure node functions is outside.",
+ "C15": "trusted: as C01 plus History.v and Args.v; mutation of shared constants by impure node functions is outside.",
  "C18": "trusted: as C11; pickle round-trips values faithfully.",
  "C01": "trusted: Coq kernel + vm_compute; hand-written models (Sched.v, Dataflow.v, Terms.v); harness (generated describing functions, plain-Python reference, canonicalisation); node table read from the implementation (layering); pure node functions. Axioms: none.",
  "C07": "trusted: Coq kernel + vm_compute; Priority.v / Graph.v models; networkx descendants as modelled by the fuelled closure (proved equal to reachability); harness. Axioms: none.",
